@@ -284,15 +284,16 @@ func (f *Filter) filterNodeServices(services **structs.NodeServices) bool {
 	}
 
 	var removed bool
-	for svcName, svc := range (*services).Services {
+	// The map is keyed by service ID; ACLs apply to the service name.
+	for svcID, svc := range (*services).Services {
 		svc.FillAuthzContext(&authzContext)
 
-		if f.allowNode((*services).Node.Node, &authzContext) && f.allowService(svcName, &authzContext) {
+		if f.allowNode((*services).Node.Node, &authzContext) && f.allowService(svc.Service, &authzContext) {
 			continue
 		}
 		f.logger.Debug("dropping service from result due to ACLs", "service", svc.CompoundServiceID())
 		removed = true
-		delete((*services).Services, svcName)
+		delete((*services).Services, svcID)
 	}
 
 	return removed
